@@ -20,21 +20,26 @@ ASSUMPTIONS = ['nutils_poly.eval_outer is the trusted polynomial evaluator', 'co
 
 @st.composite
 def cases(draw, tier):
-    kind = draw(st.sampled_from(['line', 'rect', 'rect', 'periodic', 'tri', 'mixed', 'multipatch', 'rect3', 'simplex3', 'line', 'tri']))
+    kind = draw(st.sampled_from(['line', 'rect', 'rect', 'periodic', 'tri', 'mixed', 'multipatch', 'rect3', 'simplex3', 'line', 'tri', 'periodic-small']))
     n = [draw(st.integers(1, 3)) for _ in range(3)]
     btype = draw(st.sampled_from(['std', 'std', 'spline', 'spline', 'spline', 'discont', 'bernstein', 'lagrange', 'legendre', 'bubble', 'h-std', 'th-std', 'h-spline', 'th-spline']))
+    if kind == 'periodic-small':     # one to three elements around a periodic direction: only the bases with per-element (lagrange-type) structure are defined without self-overlap
+        btype = draw(st.sampled_from(['lagrange', 'bernstein', 'lagrange', 'discont']))
     degree = draw(st.integers(0, 4))
     hier = [[draw(st.integers(0, 60)) for _ in range(draw(st.integers(1, 3)))] for _ in range(draw(st.integers(1, 3)))]
     spline = dict(mult=[[draw(st.integers(1, 3)) for _ in range(3)] for _ in range(3)], continuity=draw(st.sampled_from([-1, -1, -2, 0, 1])), removedofs=draw(st.sampled_from([None, None, [0], [-1], [0, -1]])),
                   use_mult=draw(st.booleans()))
-    return dict(kind=kind, n=n, btype=btype, degree=degree, hier=hier, spline=spline, refine=draw(st.integers(0, 4)) == 0, mask=draw(st.sampled_from([None, None, None, 'even', 'first'])),
+    return dict(kind=kind, n=n, btype=btype, degree=degree, hier=hier, spline=spline, periodic2=draw(st.booleans()), refine=draw(st.integers(0, 4)) == 0, mask=draw(st.sampled_from([None, None, None, 'even', 'first'])),
                 trim=draw(st.sampled_from([None, None, None, [1., .5, 0.25, .35]])), pdeg=draw(st.integers(1, 3)))
 
 
 def make(case):
     from nutils import mesh
     kind, n = case['kind'], case['n']
-    topo, x = gentopo.base_mesh(dict(kind=kind, n=n))
+    if kind == 'periodic-small':
+        topo, x = mesh.rectilinear([n[0], min(n[1], 2)], periodic=[0, 1] if case.get('periodic2') else [0])
+    else:
+        topo, x = gentopo.base_mesh(dict(kind=kind, n=n))
     btype, degree = case['btype'], case['degree']
     if kind == 'periodic': degree = min(degree, 3)
     info = dict(nontrivial=kind in ('tri', 'mixed', 'multipatch', 'simplex3'), levels=0)
@@ -51,7 +56,7 @@ def make(case):
         lev = sum(ci * x[i] for i, ci in enumerate(c[:topo.ndims])) - c[3]
         t2 = topo.trim(lev, maxrefine=1)
         if len(t2): topo = t2; info['nontrivial'] = True; info['trimmed'] = True
-    structured = kind in ('line', 'rect', 'periodic', 'rect3')
+    structured = kind in ('line', 'rect', 'periodic', 'rect3', 'periodic-small')
     base = btype.split('-')[-1]
     kwargs = {}
     if base == 'spline':
@@ -108,9 +113,21 @@ def make(case):
     if case['mask'] and len(basis) >= 2:
         idx = numpy.arange(0, len(basis), 2) if case['mask'] == 'even' else numpy.arange(max(1, len(basis) // 2))
         basis = basis[idx]; info['nontrivial'] = True; info['masked'] = True
-    info['periodic'] = kind == 'periodic'
-    if kind == 'periodic': info['nontrivial'] = True
+    info['periodic'] = kind in ('periodic', 'periodic-small')
+    if info['periodic']: info['nontrivial'] = True
     return topo, x, basis, kwargs, info
+
+
+def _periodic_extent(case):
+    """number of elements around each periodic direction of a 'periodic-small' mesh (after the optional uniform refinement)"""
+    r = 2 if case['refine'] else 1
+    ext = [case['n'][0] * r]
+    if case.get('periodic2'): ext.append(min(case['n'][1], 2) * r)
+    return ext
+
+
+def _two_element_periodic(case, v):
+    return case.get('kind') == 'periodic-small' and case['btype'] in ('lagrange', 'bernstein') and 2 in _periodic_extent(case)
 
 
 def check(case, rec):
@@ -137,14 +154,17 @@ def check(case, rec):
             coeffs = numpy.asarray(basis.get_coefficients(i))
             if basis.get_ndofs(i) != len(dofs) or len(coeffs) != len(dofs):
                 raise Violation('ndofs', f'element {i}: get_ndofs={basis.get_ndofs(i)}, len(get_dofs)={len(dofs)}, len(get_coefficients)={len(coeffs)}', where='ndofs:' + btype)
-            if len(set(dofs.tolist())) != len(dofs) or (len(dofs) and (dofs.min() < 0 or dofs.max() >= ndofs)):
+            # an element that is its own neighbour (a periodic direction one element wide) legitimately lists a merged function twice
+            selfneighbour = case['kind'] == 'periodic-small' and 1 in _periodic_extent(case)
+            if (len(set(dofs.tolist())) != len(dofs) and not selfneighbour) or (len(dofs) and (dofs.min() < 0 or dofs.max() >= ndofs)):
                 raise Violation('dofs', f'element {i}: dofs {dofs.tolist()} (ndofs {ndofs})', where='dofs:' + btype)
             for d in dofs: support[int(d)].add(i)
             k = smp.getindex(i)
             xi = numpy.asarray(smp.points[i].coords)
             local = nutils_poly.eval_outer(numpy.ascontiguousarray(coeffs, dtype=float), numpy.ascontiguousarray(xi, dtype=float)) if len(dofs) else numpy.zeros((len(xi), 0))
             got = vals[k]
-            want = numpy.zeros((len(xi), ndofs)); want[:, dofs] = local
+            want = numpy.zeros((len(xi), ndofs))
+            for jj, dd in enumerate(dofs): want[:, dd] += local[:, jj]
             if not numpy.allclose(got, want, atol=1e-11):
                 bad = numpy.argwhere(abs(got - want) > 1e-11)[0]
                 raise Violation('coefficients', f'{btype} {kwargs} element {i}: evaluated basis differs from get_dofs/get_coefficients description at point {bad[0]} dof {bad[1]}: {got[tuple(bad)]} vs {want[tuple(bad)]}', where='coefficients:' + btype)
@@ -203,9 +223,208 @@ def check(case, rec):
         if info.get(k) is not None and info.get(k) is not False: rec.label('param:' + k)
 
 
-SUBS = [Sub('basis', cases, check, {'quick': 200, 'thorough': 4000}, timeout=180)]
+# ---- splines against an independent Cox-de Boor reference -------------------------------------------------------------
 
-TRIGGERS = {}
+def bsplines(t, p, x):
+    """all B-splines of degree p on the knot vector t (with repetitions) at the scalar x (strictly inside a knot span): Cox-de Boor recursion"""
+    t = numpy.asarray(t, dtype=float)
+    N = numpy.array([1. if t[j] <= x < t[j + 1] else 0. for j in range(len(t) - 1)])
+    for q in range(1, p + 1):
+        M = numpy.zeros(len(t) - q - 1)
+        for j in range(len(M)):
+            a = (x - t[j]) / (t[j + q] - t[j]) * N[j] if t[j + q] > t[j] else 0.
+            b = (t[j + q + 1] - x) / (t[j + q + 1] - t[j + 1]) * N[j + 1] if t[j + q + 1] > t[j + 1] else 0.
+            M[j] = a + b
+        N = M
+    return N
+
+
+def ref_dim(k, m, p, kind, x):
+    """values of the 1-D spline functions of one direction at knot-space position x.
+    kind 'open': nutils' structured spline (end multiplicities forced to p+1); 'asgiven': knot vector exactly as given (multipatch);
+    'periodic': periodic splines on the knots k[:-1] with multiplicities m[:-1] and period k[-1]-k[0]"""
+    k = numpy.asarray(k, dtype=float); m = list(m)
+    if kind == 'open':
+        m = [p + 1] + m[1:-1] + [p + 1]
+    if kind in ('open', 'asgiven'):
+        t = numpy.repeat(k, m)
+        return bsplines(t, p, x)
+    L = k[-1] - k[0]
+    per = numpy.repeat(k[:-1], m[:-1])
+    nd = len(per)
+    t = numpy.concatenate([per - 2 * L, per - L, per, per + L, per + 2 * L])
+    N = bsplines(t, p, x)
+    out = numpy.zeros(nd)
+    for j, v in enumerate(N):
+        out[j % nd] += v
+    return out
+
+
+@st.composite
+def splineref_cases(draw, tier):
+    multipatch = draw(st.integers(0, 3)) == 0
+    nd = 2 if multipatch else draw(st.sampled_from([1, 1, 2, 2, 3]))
+    dims = []
+    p_all = draw(st.integers(1, 3))
+    for d in range(nd):
+        p = p_all if multipatch or draw(st.booleans()) else draw(st.integers(0, 4 if nd < 3 else 2))
+        periodic = (not multipatch) and draw(st.integers(0, 3)) == 0 and p <= 3
+        n = draw(st.integers(4, 6)) if periodic else draw(st.integers(1, 4 if nd < 3 else 2))
+        knots = None
+        if draw(st.booleans()):
+            steps = [draw(st.sampled_from([.5, 1., 1.5, 2., .25])) for _ in range(n)]
+            knots = [0.] + list(numpy.cumsum(steps))
+        mults = None
+        if draw(st.booleans()) and p >= 1:
+            hi = p if periodic else p + 1
+            mults = [draw(st.integers(1, hi)) for _ in range(n + 1)]
+            if periodic: mults[-1] = mults[0]
+        continuity = draw(st.sampled_from([-1, -1, -2, 0, 1]))
+        removedofs = draw(st.sampled_from([None, None, None, [0], [-1], [0, -1], [1]])) if not periodic and not multipatch else None
+        dims.append(dict(p=p, n=n, periodic=periodic, knots=knots, mults=mults, continuity=continuity, removedofs=removedofs))
+    if multipatch:
+        n = draw(st.integers(1, 3))
+        for d in dims: d['n'] = n
+        # one knot vector for every patch edge
+        d0 = dims[0]
+        if d0['knots'] is not None: d0['knots'] = d0['knots'][:n + 1] if len(d0['knots']) >= n + 1 else None
+        if d0['mults'] is not None: d0['mults'] = (d0['mults'] + [1, 1, 1])[:n + 1]
+        dims[1] = dict(d0)
+    return dict(multipatch=multipatch, dims=dims, patchcontinuous=draw(st.booleans()), use_continuity=draw(st.booleans()))
+
+
+def _match_columns(got, want, tol=1e-10):
+    """are the columns of got a permutation of the columns of want?"""
+    if got.shape != want.shape:
+        return f'{got.shape[1]} functions, reference has {want.shape[1]}'
+    used = numpy.zeros(got.shape[1], dtype=bool)
+    for j in range(want.shape[1]):
+        d = abs(got - want[:, j:j + 1]).max(0)
+        d[used] = numpy.inf
+        i = int(numpy.argmin(d)) if len(d) else -1
+        if i < 0 or d[i] > tol:
+            return f'reference function {j} (max value {abs(want[:, j]).max():.3g}) has no counterpart (closest differs by {d[i] if i >= 0 else float("nan"):.3e})'
+        used[i] = True
+    return None
+
+
+def check_splineref(case, rec):
+    from nutils import mesh
+    dims = case['dims']
+    nd = len(dims)
+    with warnings.catch_warnings():
+        warnings.simplefilter('ignore')
+        if not case['multipatch']:
+            topo, x = mesh.rectilinear([d['n'] for d in dims], periodic=[i for i, d in enumerate(dims) if d['periodic']])
+            kwargs = dict(degree=[d['p'] for d in dims])
+            eff = []; c0s = []
+            for d in dims:
+                p = d['p']
+                c0 = d['continuity']
+                c = c0 + p if c0 < 0 else c0
+                if not -1 <= c < p:
+                    c0 = -1; c = p - 1
+                eff.append(c); c0s.append(c0)
+            if any(d['knots'] is not None for d in dims): kwargs['knotvalues'] = [d['knots'] for d in dims]
+            if any(d['mults'] is not None for d in dims): kwargs['knotmultiplicities'] = [d['mults'] for d in dims]
+            elif case['use_continuity']:
+                kwargs['continuity'] = c0s
+            if any(d['removedofs'] for d in dims): kwargs['removedofs'] = [d['removedofs'] for d in dims]
+            smp = topo.sample('gauss', 3)
+            X = numpy.asarray(smp.eval(x))
+            per_dim = []
+            for i, d in enumerate(dims):
+                p, n = d['p'], d['n']
+                k = numpy.asarray(d['knots'] if d['knots'] is not None else numpy.arange(n + 1), dtype=float)
+                m = list(d['mults']) if d['mults'] is not None else [p - eff[i] if 'continuity' in kwargs else 1] * (n + 1)
+                kind = 'open'
+                if d['periodic']:
+                    kind = 'periodic' if not (m[0] == m[-1] == p + 1) else 'open'
+                cols = []
+                for xp in X[:, i]:
+                    e = min(int(numpy.floor(xp)), n - 1); u = xp - e
+                    cols.append(ref_dim(k, m, p, kind, k[e] + u * (k[e + 1] - k[e])))
+                R = numpy.array(cols)
+                if d['removedofs']:
+                    if any(not -R.shape[1] <= r < R.shape[1] for r in d['removedofs']) or len({r % R.shape[1] for r in d['removedofs']}) >= R.shape[1]:
+                        raise Discard('removedofs-out-of-range-or-everything-removed')
+                    keep = [j for j in range(R.shape[1]) if j not in {r % R.shape[1] for r in d['removedofs']}]
+                    R = R[:, keep]
+                per_dim.append(R)
+            want = per_dim[0]
+            for R in per_dim[1:]:
+                want = (want[:, :, None] * R[:, None, :]).reshape(len(X), -1)
+            try:
+                basis = topo.basis('spline', **kwargs)
+            except Exception as e:
+                raise Violation('spline-raised', f'basis(spline, {kwargs}) on rectilinear {[d["n"] for d in dims]} periodic {[d["periodic"] for d in dims]}: {type(e).__name__}: {str(e)[:200]}', where='splineref:raised:' + type(e).__name__)
+            vals = numpy.asarray(smp.eval(basis))
+            descr = f'spline {kwargs} on rectilinear {[d["n"] for d in dims]} periodic {[i for i, d in enumerate(dims) if d["periodic"]]}'
+            if vals.shape[1] != want.shape[1]:
+                raise Violation('spline-count', f'{descr}: {vals.shape[1]} functions, the knot vectors define {want.shape[1]}', where='splineref:count')
+            if not any(d['periodic'] for d in dims):
+                if abs(vals - want).max() > 1e-10:
+                    bad = numpy.argwhere(abs(vals - want) > 1e-10)[0]
+                    raise Violation('spline-value', f'{descr}: function {bad[1]} at x={X[bad[0]].tolist()} is {vals[tuple(bad)]}, Cox-de Boor gives {want[tuple(bad)]}', where='splineref:value')
+            else:
+                msg = _match_columns(vals, want)
+                if msg:
+                    raise Violation('spline-value', f'{descr}: {msg}', where='splineref:periodic')
+            rec.label('structured', 'ndims=%d' % nd, *(['periodic'] if any(d['periodic'] for d in dims) else []), *(['knotvalues'] if 'knotvalues' in kwargs else []),
+                      *(['multiplicities'] if 'knotmultiplicities' in kwargs else []), *(['continuity'] if 'continuity' in kwargs else []), *(['removedofs'] if 'removedofs' in kwargs else []))
+            rec.nontrivial = len(kwargs) > 1
+        else:
+            d = dims[0]; p, n = d['p'], d['n']
+            topo, x = mesh.multipatch(patches=[[0, 1, 3, 4], [1, 2, 4, 5]], patchverts=[[0, 0], [.5, 0], [1, 0], [0, 1], [.5, 1], [1, 1]], nelems=n)
+            kwargs = dict(degree=p, patchcontinuous=case['patchcontinuous'])
+            k = numpy.asarray(d['knots'] if d['knots'] is not None else numpy.arange(n + 1), dtype=float)
+            if d['knots'] is not None: kwargs['knotvalues'] = {None: list(d['knots'])}
+            m = list(d['mults']) if d['mults'] is not None else [p + 1] + [1] * (n - 1) + [p + 1]
+            if d['mults'] is not None: kwargs['knotmultiplicities'] = {None: list(d['mults'])}
+            if sum(m) - p - 1 <= 0:
+                raise Discard('knot-vector-too-short')
+            if case['patchcontinuous'] and (m[0] != p + 1 or m[-1] != p + 1):
+                raise Discard('patch-continuity-needs-open-ends')     # merging interface functions presumes interpolating ends; not asserted
+            try:
+                basis = topo.basis('spline', **kwargs)
+            except Exception as e:
+                raise Violation('spline-raised', f'multipatch basis(spline, {kwargs}) nelems={n}: {type(e).__name__}: {str(e)[:200]}', where='splineref:raised:' + type(e).__name__)
+            smp = topo.sample('gauss', 3)
+            vals, X = smp.eval([basis, x])
+            vals = numpy.asarray(vals); X = numpy.asarray(X)
+            nfun = sum(m) - p - 1
+            expected = 2 * nfun * nfun - (nfun if case['patchcontinuous'] else 0)
+            descr = f'multipatch spline {kwargs} nelems={n}'
+            if vals.shape[1] != expected:
+                raise Violation('spline-count', f'{descr}: {vals.shape[1]} functions, expected {expected}', where='splineref:multipatch-count')
+            if (abs(vals).max(0) < 1e-13).any():
+                raise Violation('spline-zero-function', f'{descr}: functions {numpy.nonzero(abs(vals).max(0) < 1e-13)[0].tolist()} vanish at every sample point', where='splineref:zero-function')
+            for ipatch in range(2):
+                sel = (X[:, 0] < .5) if ipatch == 0 else (X[:, 0] > .5)
+                Xp = X[sel]
+                xi = [Xp[:, 1] * n, (Xp[:, 0] - .5 * ipatch) / .5 * n]     # patch axes: first along y, second along x
+                per_dim = []
+                for a in range(2):
+                    cols = []
+                    for xp in xi[a]:
+                        e = min(int(numpy.floor(xp)), n - 1); u = xp - e
+                        cols.append(ref_dim(k, m, p, 'asgiven', k[e] + u * (k[e + 1] - k[e])))
+                    per_dim.append(numpy.array(cols))
+                want = (per_dim[0][:, :, None] * per_dim[1][:, None, :]).reshape(len(Xp), -1)
+                got = vals[sel]
+                got = got[:, abs(got).max(0) > 1e-13]
+                msg = _match_columns(got, want)
+                if msg:
+                    raise Violation('spline-value', f'{descr} patch {ipatch}: {msg}', where='splineref:multipatch')
+            rec.label('multipatch', *(['multiplicities'] if d['mults'] is not None else []), *(['knotvalues'] if d['knots'] is not None else []), 'patchcontinuous=%s' % case['patchcontinuous'],
+                      *(['non-open-ends'] if (m[0] != p + 1 or m[-1] != p + 1) else []))
+            rec.nontrivial = True
+
+
+SUBS = [Sub('basis', cases, check, {'quick': 200, 'thorough': 4000}, weight=3, timeout=180),
+        Sub('splineref', splineref_cases, check_splineref, {'quick': 300, 'thorough': 6000}, weight=2, timeout=120)]
+
+TRIGGERS = {'c0-basis-two-element-periodic': _two_element_periodic}
 
 MANIFEST = dict(
     category='exploration',
